@@ -8,6 +8,13 @@ def hook_commits():
     return [l.split()[0] for l in out.splitlines() if "verif hook" in l]
 
 CLAIMED = {
+ "C19": dict(
+   level="exploration",
+   text="Producer chain (genesis period 4..8 or 100) feeding a wallet node (real Blockchain + Wallet): 5..40/150 seeded events (payments to the wallet key, transactions built through Transaction::create / create_with_multiple_payments with random, total, excessive and zero amounts, confirmation, delay, dropping, a competing fork that un-confirms, window expiry with rebroadcast). After every event: balance == sum of unspent slips, every unspent key in the slip table; until the first reorganisation the unspent set equals the reference ledger's in-window outputs of the key minus inputs committed to pending wallet transactions; every wallet-built transaction has distinct inputs, outputs <= inputs (u128) and validates against the ledger it was built on.",
+   design="§6 C19",
+   note="Trusted: reference ledger of the producer chain. Staking slips and NFTs are not generated.",
+   technique="deterministic simulation: seeded payment/spend/confirm/drop/reorg/expiry histories through a real node + wallet-vs-ledger model"),
+
  "C14": dict(
    level="exploration",
    text="One real node (consensus processor with timer-driven bundling and the real mempool): 4..40/120 seeded operations mixing transaction arrivals (valid, two-input, conflicting, duplicate), staging and bundling ticks, peer blocks that confirm / partially spend / conflict with pooled transactions, invalid peer blocks and a peer fork that reorganises away the last block. After every operation a reference view of the pool is checked: no shared inputs, every pooled transaction valid against the ledger, reservations subset of pooled inputs, routing-work cache exact, bundling all-or-nothing, and an active probe that an unreserved unspent output can be spent by a fresh transaction.",
